@@ -313,3 +313,60 @@ package model
 //@   loop 1 invariant len: len(data) == 3 + 2*(rangeindex+1)
 //@   loop 1 invariant head: be16(data, 0) == p.OriginalSerialNumber && data[2] == p.AgainPackageCount
 //@   loop 1 invariant list: forall(k, 0, rangeindex+1, be16(data, 3+2*k) == p.AgainPackageList[k])
+
+// ---------------------------------------------------------------------------------------------
+// C07: round trips (harness functions in zz_verif_roundtrip.go)
+// ---------------------------------------------------------------------------------------------
+//@ func rtP0x8001
+//@   requires C07.in: x != nil
+//@   ensures C07.rt: err == nil && deepeq(y, *x)
+//@ func rtP0x8801
+//@   requires C07.in: x != nil
+//@   ensures C07.rt: err == nil && deepeq(y, *x)
+//@ func rtP0x9102
+//@   requires C07.in: x != nil
+//@   ensures C07.rt: err == nil && deepeq(y, *x)
+//@ func rtP0x9105
+//@   requires C07.in: x != nil
+//@   ensures C07.rt: err == nil && deepeq(y, *x)
+//@ func rtP0x9207
+//@   requires C07.in: x != nil
+//@   ensures C07.rt: err == nil && deepeq(y, *x)
+//@ func rtT0x0001
+//@   requires C07.in: x != nil
+//@   ensures C07.rt: err == nil && deepeq(y, *x)
+//@ func rtT0x0800
+//@   requires C07.in: x != nil
+//@   ensures C07.rt: err == nil && deepeq(y, *x)
+//@ func rtT0x1003
+//@   requires C07.in: x != nil
+//@   ensures C07.rt: err == nil && deepeq(y, *x)
+//@ func rtT0x1206
+//@   requires C07.in: x != nil
+//@   ensures C07.rt: err == nil && deepeq(y, *x)
+//@ func rtP0x8100
+//@   requires C07.in: x != nil && len(x.AuthCode) <= 65536
+//@   ensures C07.rt: err == nil && deepeq(y, *x)
+//@ func rtT0x1211
+//@   requires C07.in: x != nil && int(x.FileNameLen) == len(x.FileName)
+//@   ensures C07.rt: err == nil && deepeq(y, *x)
+//@ func trP0x8001
+//@   ensures C07.tr: err == nil ==> sameBytes(out, b)
+//@ func trP0x8801
+//@   ensures C07.tr: err == nil ==> sameBytes(out, b)
+//@ func trP0x9102
+//@   ensures C07.tr: err == nil ==> sameBytes(out, b)
+//@ func trP0x9105
+//@   ensures C07.tr: err == nil ==> sameBytes(out, b)
+//@ func trP0x9207
+//@   ensures C07.tr: err == nil ==> sameBytes(out, b)
+//@ func trT0x0001
+//@   ensures C07.tr: err == nil ==> sameBytes(out, b)
+//@ func trT0x0800
+//@   ensures C07.tr: err == nil ==> sameBytes(out, b)
+//@ func trT0x1003
+//@   ensures C07.tr: err == nil ==> sameBytes(out, b)
+//@ func trT0x1206
+//@   ensures C07.tr: err == nil ==> sameBytes(out, b)
+//@ func trT0x0102
+//@   ensures C07.tr: err == nil ==> sameBytes(out, b)
